@@ -58,6 +58,8 @@ const char *PROBES[] = {
 	"s = \"${X}-${NOPE:-dflt}\"\nsl = {${X}}\n",
 	"# c1\n// c2\n/* c3\n c4 */ a = 010\ns = \"multi\nline\\\n cont\"\nvi = 4\n",
 	"a = 1\nl = {1, zz}\n",
+	"# note one\na = 1\n/* block\n two */ s = \"x\"\n##\nb = on\n", // parsed with annotations on
+	"one { x = 3 # tail\n}\nms \"a\\\"b\" { v = 'it\\'s' }\nsl += \"x\\\ny\"\n",
 };
 const int NPROBES = sizeof(PROBES) / sizeof(PROBES[0]);
 
@@ -197,7 +199,10 @@ json generate(uint64_t seed, uint64_t idx, int tier)
 		int cl = (int)r.below(nclients);
 		int fresh_ctx = 10 + i;
 		size_t first = steps.size();
-		steps.push_back(step(cl, "init", fresh_ctx));
+		json pinit = step(cl, "init", fresh_ctx);
+		if (p == 9)
+			pinit["flags"] = F_COMMENTS;
+		steps.push_back(pinit);
 		json ps = parse_step(cl, fresh_ctx, r.chance(1, 4) ? "fp" : "buf", PROBES[p]);
 		steps.push_back(ps);
 		probe_steps.push_back(json::array({first, first + 1}));
@@ -378,7 +383,7 @@ Property P = [] {
 	p.rule = "seeded histories of 1..6 prior events (24 kinds: accepted parses via buffer/stream/file+include, parses ending inside \"..\", '..', /*..*/, "
 		 "trailing backslash, syntax errors in list / function arguments / nested section, error inside an included file at depth 1..3, missing include, "
 		 "include depth exhausted, self-include, range failures via parser/setopt/setmulti, bad escape, unknown option, validator veto, free+re-init) over 1-2 clients "
-		 "x 1-2 contexts, followed by 2-4 probes from a fixed set of 9; in the thorough tier all 24 + 24*24 histories of length 1 and 2 are enumerated first, longer ones are sampled; "
+		 "x 1-2 contexts, followed by 2-4 probes from a fixed set of 11; in the thorough tier all 24 + 24*24 histories of length 1 and 2 are enumerated first, longer ones are sampled; "
 		 "distinct = distinct event-kind sequences (the history), all non-trivial";
 	p.assumptions = {"the probe set and event texts are fixed by the generator; outcomes compared are return code, diagnostics (file,line) and the canonical dump",
 			 "O-scrub resets the scanner object's .data/.bss, cfg_yylval and errno between API calls; a correct library cannot observe that"};
